@@ -292,6 +292,8 @@ func run(c *rig.Ctx) {
 			c.Sample(map[string]any{"class": "state", "cart": cart, "program": p.Describe(), "writes": nw})
 		}
 	})
+
+	phaseWrites(c)
 }
 
 func main() {
